@@ -12,6 +12,8 @@
     to `backpatchAll` / `specWords`;
   * `Reaches` — `parseLoop` runs `c` iterations from one configuration to another;
   * `stmt_reaches` — one statement (instruction, trap, or the byte tokens of a data directive);
+    `stmt_final` — the statement whose last word is word 65,535: the loop ends there, provided no
+    token follows (`Prog.renderable`'s `fullOk`: only unlabelled `.blkw 0` items follow, `silent_rest`);
   * `parse_items` — the induction over the items of a program, with the symbol-table invariant
     "label ↦ 1 + number of words before it" expressed through the final lookup function `G`;
   * `parse_tokens_image`.
@@ -251,6 +253,55 @@ theorem bytes_reaches (srcLen : Nat) : ∀ (bs : List Word) (btoks rest : List T
         simp only [List.reverse_cons, List.append_assoc, List.cons_append, List.nil_append]
       · simp only [List.map_cons, h5]
 
+/-- the byte tokens of a data directive whose last word is word 65,535, with nothing after them:
+the statement counter is full, the loop ends with the statements parsed so far -/
+theorem bytes_final (srcLen : Nat) : ∀ (bs : List Word) (b : Word) (btoks : List Token) (st : PState)
+    (tbl : SymTab) (fuel : Nat),
+    List.Forall₂ ETok.Matches ((b :: bs).map .byte) btoks → st.line + bs.length = 65535 →
+    btoks.length < fuel →
+    ∃ air, parseLoop srcLen fuel btoks st tbl = (.ok air, tbl) ∧ air.orig = st.orig ∧
+      ∃ lines : List AsmLine, air.stmts = st.stmts.reverse ++ lines ∧
+        lines.map (·.stmt) = (b :: bs).map Stmt.rawWord := by
+  intro bs
+  induction bs with
+  | nil =>
+    intro b btoks st tbl fuel hm hle hfuel
+    obtain ⟨t, ts, rfl, hk, hm'⟩ := forall₂_cons_left hm
+    rw [forall₂_nil_left hm'] at hfuel ⊢
+    have hk : t.kind = .byte b := hk
+    simp only [List.length_nil, Nat.add_zero] at hle
+    obtain ⟨fuel', rfl⟩ : ∃ f, fuel = f + 1 := ⟨fuel - 1, by omega⟩
+    have hstep : parseStep srcLen [t] st tbl = (.done (.ok (st.addStmt t (.rawWord b) none).air), tbl) := by
+      rw [parseStep_nolabel srcLen t _ st tbl (by rw [hk]; exact fun h => by cases h)]
+      have : st.line + 1 > 65535 := by omega
+      simp only [parseLine, hk, finishStmt, this, if_true]
+    obtain ⟨sp, hsp⟩ := addStmt_stmts st t (.rawWord b) none
+    refine ⟨(st.addStmt t (.rawWord b) none).air, by simp only [parseLoop, hstep], rfl,
+      [{ line := (st.n + 1) % 65536, stmt := .rawWord b, span := sp }], ?_, rfl⟩
+    show (st.addStmt t (.rawWord b) none).stmts.reverse = _
+    rw [hsp, List.reverse_cons]
+  | cons b' bs ih =>
+    intro b btoks st tbl fuel hm hle hfuel
+    obtain ⟨t, ts, rfl, hk, hm'⟩ := forall₂_cons_left hm
+    have hk : t.kind = .byte b := hk
+    simp only [List.length_cons] at hle hfuel
+    obtain ⟨fuel', rfl⟩ : ∃ f, fuel = f + 1 := ⟨fuel - 1, by omega⟩
+    have hstep : parseStep srcLen (t :: ts) st tbl =
+        (.more ts { st.addStmt t (.rawWord b) none with line := st.line + 1 }, tbl) := by
+      rw [parseStep_nolabel srcLen t _ st tbl (by rw [hk]; exact fun h => by cases h)]
+      have : ¬ st.line + 1 > 65535 := by omega
+      simp only [parseLine, hk, finishStmt, this, if_false]
+    obtain ⟨air, e1, e2, lines, e3, e4⟩ :=
+      ih b' ts { st.addStmt t (.rawWord b) none with line := st.line + 1 } tbl fuel' hm'
+        (by show st.line + 1 + bs.length = 65535; omega) (by omega)
+    obtain ⟨sp, hsp⟩ := addStmt_stmts st t (.rawWord b) none
+    refine ⟨air, by simp only [parseLoop, hstep]; exact e1, e2,
+      { line := (st.n + 1) % 65536, stmt := .rawWord b, span := sp } :: lines, ?_, ?_⟩
+    · rw [e3]
+      show (st.addStmt t (.rawWord b) none).stmts.reverse ++ lines = _
+      rw [hsp, List.reverse_cons, List.append_assoc]; rfl
+    · rw [List.map_cons, e4]; rfl
+
 /-! ### one statement -/
 
 theorem target_congr {lab lab' : Nat → Option Word} {l : Loc} (h : ∀ id ∈ l.ids, lab id = lab' id) (a : Word) :
@@ -466,6 +517,65 @@ theorem stmt_reaches (names : Nat → List Char) (srcLen : Nat) (ow : Word) (lab
         rw [ha, Option.bind_some, ← words_congr hids, hw] at h1
         simp only [finishAll, hmod, ← h1, List.append_nil]
 
+/-- **The statement that fills the image.**  When the last word of `s` is word 65,535 and no token
+follows, the loop ends (successfully) with the lines of `s` appended. -/
+theorem stmt_final (names : Nat → List Char) (srcLen : Nat) (ow : Word) (lab : Nat → Option Word)
+    (s : SrcStmt) (stoks : List Token)
+    (hm : List.Forall₂ ETok.Matches (stmtETok names s) stoks) (st : PState) (tbl : SymTab) (k : Nat)
+    (hline : st.line = k + 1) (hn : st.n = k) (hk : k + s.size = 65535) (hsz : 1 ≤ s.size)
+    (hren : s.renderable = true)
+    (w : List Word) (hw : s.words lab (addrOf ow (k + 1)) = some w) (fuel : Nat) (hfuel : stoks.length < fuel) :
+    ∃ air, parseLoop srcLen fuel stoks st tbl = (.ok air, tbl) ∧ air.orig = st.orig ∧
+      ∃ lines : List AsmLine, air.stmts = st.stmts.reverse ++ lines ∧
+        ∀ tblF : SymTab, (∀ n v, tbl.get? n = some v → tblF.get? n = some v) →
+          (∀ id ∈ s.ids, lab id = (tblF.get? (names id)).map (addrOf ow)) →
+          finishAll tblF ow lines = some w := by
+  cases hs : stmtSyntax names s with
+  | none =>
+    obtain ⟨h1, h2, h3, _⟩ := data_stmt hs hren lab (addrOf ow (k + 1))
+    rw [h2] at hw; cases hw
+    rw [h1] at hm
+    cases hd : dataWords s with
+    | nil => rw [hd] at h3; simp only [List.length_nil] at h3; omega
+    | cons b bs =>
+      rw [hd] at hm h3
+      simp only [List.length_cons] at h3
+      obtain ⟨air, e1, e2, lines, e3, e4⟩ :=
+        bytes_final srcLen bs b stoks st tbl fuel hm (by omega) hfuel
+      exact ⟨air, e1, e2, lines, e3, fun tblF _ _ => finishAll_raw tblF ow lines _ e4⟩
+  | some p =>
+    obtain ⟨hd, ops⟩ := p
+    rw [stmtETok_syntax hs] at hm
+    obtain ⟨t, ots, rfl, ht, hops⟩ := forall₂_cons_left hm
+    have hsz1 : s.size = 1 := by
+      cases s <;> first | rfl | (cases hs; done)
+    have hair := airOf_isSome names tbl st.line lab (addrOf ow (k + 1)) s w hw (by rw [hs]; rfl)
+    cases ha : airOf names tbl st.line s with
+    | none => rw [ha] at hair; cases hair
+    | some stmt =>
+      have hp := parse_stmt_tokens names srcLen tbl st.line s hd ops hs ots [] (matchAll_of_forall₂ hops)
+      rw [ha, List.append_nil] at hp
+      obtain ⟨te, hp⟩ := hp
+      have hgt : st.line + 1 > 65535 := by omega
+      have hstep : parseStep srcLen (t :: ots) st tbl = (.done (.ok (st.addStmt t stmt te).air), tbl) := by
+        rw [parseStep_nolabel srcLen t _ st tbl (head_not_label hd t ht),
+          parseLine_head srcLen hd t _ st tbl ht, hp]
+        simp only [finishStmt, hgt, if_true]
+      obtain ⟨sp, hsp⟩ := addStmt_stmts st t stmt te
+      simp only [List.length_cons] at hfuel
+      obtain ⟨fuel', rfl⟩ : ∃ f, fuel = f + 1 := ⟨fuel - 1, by omega⟩
+      refine ⟨(st.addStmt t stmt te).air, by simp only [parseLoop, hstep], rfl,
+        [{ line := (st.n + 1) % 65536, stmt := stmt, span := sp }], ?_, ?_⟩
+      · show (st.addStmt t stmt te).stmts.reverse = _
+        rw [hsp, List.reverse_cons]
+      · intro tblF hmono hids
+        have hmod : (st.n + 1) % 65536 = k + 1 := by rw [hn]; exact Nat.mod_eq_of_lt (by omega)
+        have h1 := airOf_words names tbl tblF (k + 1) ow sp hmono
+          (fun id => (tblF.get? (names id)).map (addrOf ow)) (fun _ => rfl) s (by rw [hs]; rfl)
+        rw [hline] at ha
+        rw [ha, Option.bind_some, ← words_congr hids, hw] at h1
+        simp only [finishAll, hmod, ← h1, List.append_nil]
+
 /-! ### the items of a program -/
 
 /-- the statements among the items (`Prog.stmts`, recursively) -/
@@ -515,13 +625,49 @@ theorem stmt_first (names : Nat → List Char) (s : SrcStmt) (stoks : List Token
     obtain ⟨t, ts, rfl, ht, _⟩ := forall₂_cons_left hm
     exact ⟨t, ts, rfl, head_not_label hd t ht⟩
 
+theorem silent_eq {it : Item} (h : it.silent = true) : it = .stmt none (.blkw 0#16) := by
+  cases it with
+  | orig w => cases h
+  | brk => cases h
+  | stmt l s =>
+    cases l with
+    | some id => cases h
+    | none =>
+      cases s <;> first | (cases h; done) | (simp only [Item.silent, beq_iff_eq] at h; rw [h])
+
+/-- once the image is full, the items that may still follow contribute nothing: no token, no label,
+no `.orig`, no word -/
+theorem silent_rest (names : Nat → List Char) (lab : Nat → Option Word) (ow : Word) :
+    ∀ (its : List Item) (k : Nat), 65535 ≤ k → fullOk its k = true →
+      itemsETok names its = [] ∧ labelDefs (itemsStmts its) k = [] ∧ itemsOrigs its = [] ∧
+      wordsFrom lab ow (itemsStmts its) k = some [] := by
+  intro its
+  induction its with
+  | nil => intro k _ _; exact ⟨rfl, rfl, rfl, rfl⟩
+  | cons it rest ih =>
+    intro k hk h
+    simp only [fullOk, Bool.and_eq_true, Bool.or_eq_true, decide_eq_true_eq] at h
+    obtain ⟨h1, h2⟩ := h
+    have hs : it.silent = true := by
+      rcases h1 with h1 | h1
+      · omega
+      · exact h1
+    rw [silent_eq hs] at h2 ⊢
+    have hz : (SrcStmt.blkw 0#16).size = 0 := rfl
+    simp only [Item.size, hz, Nat.add_zero] at h2
+    obtain ⟨a1, a2, a3, a4⟩ := ih k hk h2
+    refine ⟨?_, ?_, a3, ?_⟩
+    · simp only [itemsETok, a1, List.append_nil]; rfl
+    · simp only [itemsStmts, labelDefs, hz, Nat.add_zero, a2]
+    · simp only [itemsStmts, wordsFrom, hz, Nat.add_zero, a4]; rfl
+
 /-- **The induction over the items.**  `G` is the lookup function of the final symbol table, `lab`
 the label addresses the specification uses, `k` the number of words so far. -/
 theorem parse_items (names : Nat → List Char) (srcLen : Nat) (ow : Word) (lab : Nat → Option Word)
     (G : List Char → Option Nat) :
     ∀ (its : List Item) (fuel : Nat) (toks : List Token) (st : PState) (tbl : SymTab) (k : Nat) (ws : List Word),
       st.line = k + 1 → st.n = k →
-      k + totalSize (itemsStmts its) < 65535 →
+      k < 65535 → k + totalSize (itemsStmts its) ≤ 65535 → fullOk its k = true →
       toks.length < fuel →
       List.Forall₂ ETok.Matches (itemsETok names its) toks →
       (st.orig = none ∨ itemsOrigs its = []) → (itemsOrigs its).length ≤ 1 →
@@ -537,7 +683,7 @@ theorem parse_items (names : Nat → List Char) (srcLen : Nat) (ow : Word) (lab 
   intro its
   induction its with
   | nil =>
-    intro fuel toks st tbl k ws hline hn hk hfuel hm horig horigs hT1 hT2 hT3 hlab hrs hw
+    intro fuel toks st tbl k ws hline hn hk65 hk hfull hfuel hm horig horigs hT1 hT2 hT3 hlab hrs hw
     rw [forall₂_nil_left hm] at hfuel ⊢
     obtain ⟨fuel', rfl⟩ : ∃ f, fuel = f + 1 := ⟨fuel - 1, by omega⟩
     cases hw
@@ -557,7 +703,7 @@ theorem parse_items (names : Nat → List Char) (srcLen : Nat) (ow : Word) (lab 
     · show st.stmts.reverse = _
       rw [List.append_nil]
   | cons it rest ih =>
-    intro fuel toks st tbl k ws hline hn hk hfuel hm horig horigs hT1 hT2 hT3 hlab hrs hw
+    intro fuel toks st tbl k ws hline hn hk65 hk hfull hfuel hm horig horigs hT1 hT2 hT3 hlab hrs hw
     cases it with
     | orig w =>
       simp only [itemsETok, itemETok, List.cons_append, List.nil_append] at hm
@@ -581,7 +727,8 @@ theorem parse_items (names : Nat → List Char) (srcLen : Nat) (ow : Word) (lab 
         rw [parseStep_nolabel srcLen ot _ st tbl (by rw [hot]; exact fun h => by cases h),
           parseLine_first_orig srcLen false ot lt rtoks st tbl hot w hlt hnone]
       obtain ⟨air, tblF, e1, e2, e3, lines, e4, e5⟩ :=
-        ih fuel' rtoks { st with orig := some w, tokEnd := lt.span.offs + lt.span.len } tbl k ws hline hn hk
+        ih fuel' rtoks { st with orig := some w, tokEnd := lt.span.offs + lt.span.len } tbl k ws hline hn hk65 hk
+          (by simp only [fullOk, Item.size, Bool.and_eq_true, Nat.add_zero] at hfull; exact hfull.2)
           (by omega) hm (Or.inr hrest) (by rw [hrest]; exact Nat.zero_le _) hT1 hT2 hT3 hlab hrs hw
       refine ⟨air, tblF, ?_, ?_, e3, lines, e4, e5⟩
       · simp only [parseLoop, hstep]; exact e1
@@ -597,13 +744,16 @@ theorem parse_items (names : Nat → List Char) (srcLen : Nat) (ow : Word) (lab 
         rw [parseStep_nolabel srcLen bt _ st tbl (by rw [hbt]; exact fun h => by cases h)]
         simp only [parseLine, hbt]
       obtain ⟨air, tblF, e1, e2, e3, lines, e4, e5⟩ :=
-        ih fuel' rtoks { st with bps := bpInsert st.bps (st.n % 65536) } tbl k ws hline hn hk
+        ih fuel' rtoks { st with bps := bpInsert st.bps (st.n % 65536) } tbl k ws hline hn hk65 hk
+          (by simp only [fullOk, Item.size, Bool.and_eq_true, Nat.add_zero] at hfull; exact hfull.2)
           (by omega) hm horig horigs hT1 hT2 hT3 hlab hrs hw
       refine ⟨air, tblF, ?_, e2, e3, lines, e4, e5⟩
       simp only [parseLoop, hstep]; exact e1
     | stmt l s =>
       simp only [itemsStmts, totalSize] at hk hT2 hT3 hlab hrs hw
       simp only [itemsOrigs] at horig horigs
+      simp only [fullOk, Item.size, Bool.and_eq_true] at hfull
+      have hfull' := hfull.2
       obtain ⟨hren, hlsz⟩ := hrs (l, s) List.mem_cons_self
       have hrs' : ∀ ls ∈ itemsStmts rest, ls.2.renderable = true ∧ (ls.1.isSome = true → 1 ≤ ls.2.size) :=
         fun ls h => hrs ls (List.mem_cons_of_mem _ h)
@@ -638,19 +788,47 @@ theorem parse_items (names : Nat → List Char) (srcLen : Nat) (ow : Word) (lab 
               air.orig = st.orig.or (itemsOrigs rest).head? ∧ (∀ n, tblF.get? n = G n) ∧
               ∃ lines, air.stmts = st.stmts.reverse ++ lines ∧ finishAll tblF ow lines = some (w ++ ws') := by
           intro stoks rtoks tblX fuelX hfX hms hmr hX1 hX3
-          obtain ⟨c, st', hc, hr, a1, a2, a3, lines, a4, a5⟩ :=
-            stmt_reaches names srcLen ow lab s stoks rtoks hms st tblX k hline hn (by omega) hren w
-              (by rw [addrOf_succ]; exact hw1)
-          have hf : fuelX = (fuelX - c) + c := by omega
-          rw [hf, hr (fuelX - c)]
-          obtain ⟨air, tblF, e1, e2, e3, lines', e4, e5⟩ :=
-            ih (fuelX - c) rtoks st' tblX (k + s.size) ws' a1 a2 (by omega) (by omega) hmr
-              (by rw [a3]; exact horig) horigs hX1 hT2' hX3 hlab' hrs' hw2
-          refine ⟨air, tblF, e1, by rw [e2, a3], e3, lines ++ lines', ?_, ?_⟩
-          · rw [e4, a4, List.reverse_append, List.reverse_reverse, List.append_assoc]
-          · exact finishAll_append tblF ow lines lines' w ws'
-              (a5 tblF (fun n v h => by rw [e3]; exact (hX1 n v h).1)
-                (fun id hid => by rw [e3]; exact hlab_s id hid)) e5
+          rcases Nat.lt_or_ge (k + s.size) 65535 with hlt | hge
+          · obtain ⟨c, st', hc, hr, a1, a2, a3, lines, a4, a5⟩ :=
+              stmt_reaches names srcLen ow lab s stoks rtoks hms st tblX k hline hn hlt hren w
+                (by rw [addrOf_succ]; exact hw1)
+            have hf : fuelX = (fuelX - c) + c := by omega
+            rw [hf, hr (fuelX - c)]
+            obtain ⟨air, tblF, e1, e2, e3, lines', e4, e5⟩ :=
+              ih (fuelX - c) rtoks st' tblX (k + s.size) ws' a1 a2 hlt (by omega) hfull' (by omega) hmr
+                (by rw [a3]; exact horig) horigs hX1 hT2' hX3 hlab' hrs' hw2
+            refine ⟨air, tblF, e1, by rw [e2, a3], e3, lines ++ lines', ?_, ?_⟩
+            · rw [e4, a4, List.reverse_append, List.reverse_reverse, List.append_assoc]
+            · exact finishAll_append tblF ow lines lines' w ws'
+                (a5 tblF (fun n v h => by rw [e3]; exact (hX1 n v h).1)
+                  (fun id hid => by rw [e3]; exact hlab_s id hid)) e5
+          · -- this statement fills the image: nothing but silent items follows, the loop ends here
+            have heq : k + s.size = 65535 := by omega
+            obtain ⟨s1, s2, s3, s4⟩ := silent_rest names lab ow rest (k + s.size) hge hfull'
+            rw [s1] at hmr
+            have hnil := forall₂_nil_left hmr
+            subst hnil
+            rw [List.append_nil]
+            simp only [List.length_nil, Nat.add_zero] at hfX
+            rw [s4] at hw2; cases hw2
+            rw [s2] at hX3
+            obtain ⟨air, e1, e2, lines, e3, e4⟩ :=
+              stmt_final names srcLen ow lab s stoks hms st tblX k hline hn heq (by omega) hren w
+                (by rw [addrOf_succ]; exact hw1) fuelX hfX
+            have hG : ∀ n, tblX.get? n = G n := by
+              intro n
+              cases hg : G n with
+              | none =>
+                cases ht : tblX.get? n with
+                | none => rfl
+                | some v => have := (hX1 n v ht).1; rw [hg] at this; cases this
+              | some v =>
+                rcases hX3 n v hg with h | ⟨d, hd, _⟩
+                · exact h
+                · cases hd
+            refine ⟨air, tblX, e1, by rw [e2, s3]; cases st.orig <;> rfl, hG, lines, e3, ?_⟩
+            rw [List.append_nil]
+            exact e4 tblX (fun _ _ h => h) (fun id hid => by rw [hG]; exact hlab_s id hid)
         cases l with
         | none =>
           simp only [itemsETok, itemETok] at hm
@@ -790,6 +968,33 @@ theorem defLookup_some {names : Nat → List Char} {defs : List (Nat × Nat)} {n
     have h2 := List.mem_of_find?_eq_some hf
     exact ⟨d, h2, of_decide_eq_true h1⟩
 
+/-- every program with fewer than 65,535 words passes the full-image condition of `Prog.renderable` -/
+theorem fullOk_of_lt_aux : ∀ (its : List Item) (k : Nat), k + totalSize (itemsStmts its) < 65535 →
+    fullOk its k = true := by
+  intro its
+  induction its with
+  | nil => intro _ _; rfl
+  | cons it rest ih =>
+    intro k h
+    have hk : k < 65535 := by omega
+    simp only [fullOk, Bool.and_eq_true, Bool.or_eq_true, decide_eq_true_eq]
+    refine ⟨Or.inl hk, ih _ ?_⟩
+    cases it with
+    | orig w => exact h
+    | brk => exact h
+    | stmt l s =>
+      simp only [itemsStmts, totalSize] at h
+      simp only [Item.size]
+      omega
+
+theorem fullOk_of_lt (P : Prog) (h : totalSize P.stmts < 65535) : fullOk P.items 0 = true :=
+  fullOk_of_lt_aux P.items 0 (by rw [← stmts_eq]; omega)
+
+/-- a full image: `.blkw xFFFF` may be followed by `.blkw 0` only (`.break` there is lace's `too many`) -/
+example : fullOk [.stmt none (.blkw 0xFFFF#16), .stmt none (.blkw 0#16)] 0 = true ∧
+    fullOk [.stmt none (.blkw 0xFFFF#16), .brk] 0 = false ∧
+    fullOk [.brk, .stmt none (.blkw 0xFFFE#16), .orig 0x3000#16, .stmt (some 0) (.fill 1#16)] 0 = true := by decide
+
 /-! ### the whole program -/
 
 /-- **Tokens → image, whole program.**  Any token list matching the program's expected token stream
@@ -806,7 +1011,7 @@ theorem parse_tokens_image (flag : Bool) (names : Nat → List Char) (P : Prog) 
   simp only [] at himg
   split at himg
   · rename_i hc
-    obtain ⟨hlen, _, hnodup, _⟩ := hc
+    obtain ⟨hlen, _, hnodup, htot⟩ := hc
     cases hwf : wordsFrom (fun id => ((labelDefs P.stmts 0).lookup id).map fun k =>
         P.origs.head?.getD 0x3000#16 + BitVec.ofNat 16 k) (P.origs.head?.getD 0x3000#16) P.stmts 0 with
     | none => rw [hwf] at himg; cases himg
@@ -815,7 +1020,7 @@ theorem parse_tokens_image (flag : Bool) (names : Nat → List Char) (P : Prog) 
       simp only [Option.map_some, Option.some.injEq, Prod.mk.injEq] at himg
       obtain ⟨ho, rfl⟩ := himg
       unfold Prog.renderable at hren
-      rw [Bool.and_eq_true, List.all_eq_true, decide_eq_true_eq] at hren
+      rw [Bool.and_eq_true, List.all_eq_true] at hren
       unfold Prog.syntaxOk at hsyn
       rw [List.all_eq_true] at hsyn
       have hids := labelDefs_ids P.stmts 0
@@ -823,7 +1028,7 @@ theorem parse_tokens_image (flag : Bool) (names : Nat → List Char) (P : Prog) 
         intro d hd
         rw [defLookup_name hinj _ hids d.1 (hids d hd), lookup_of_nodup _ hnodup d hd]
         rfl
-      rw [stmts_eq] at hwf hren hsyn hG2 hids hinj
+      rw [stmts_eq] at hwf hren hsyn hG2 hids hinj htot
       rw [origs_eq] at hlen ho hwf
       obtain ⟨air, tblF, e1, e2, e3, lines, e4, e5⟩ :=
         parse_items names srcLen ((itemsOrigs P.items).head?.getD 0x3000#16)
@@ -832,7 +1037,7 @@ theorem parse_tokens_image (flag : Bool) (names : Nat → List Char) (P : Prog) 
           (defLookup names (labelDefs (itemsStmts P.items) 0))
           P.items (toks.length + 1) toks
           { orig := none, stmts := [], n := 0, bps := [], line := 1, tokEnd := 0 } [] 0 ws0
-          rfl rfl (by have := hren.2; omega) (Nat.lt_succ_self _) hm (Or.inl rfl) hlen
+          rfl rfl (by decide) (by omega) hren.2 (Nat.lt_succ_self _) hm (Or.inl rfl) hlen
           (fun n v h => by cases h) hG2
           (fun n v h => Or.inr (defLookup_some h))
           (fun id hid => by
